@@ -230,7 +230,16 @@ func genKdfOps(r *rand.Rand, n int) []string {
 		if r.Intn(2) == 0 {
 			sp.kids = append(sp.kids, &cnode{mt: 2, b: randBytes(r, r.Intn(5))})
 		}
-		top := &cnode{mt: 4, kids: []*cnode{intNode(int64(alg)), pi(), pi(), sp}}
+		algNode := intNode(int64(alg))
+		if r.Intn(10) == 0 { // odd-typed integer members: simple values, booleans, null, negative, float, text
+			odd := [][]byte{{0xf0}, {0xf8, 0x80}, {0xf8, 0xff}, {0xf4}, {0xf5}, {0xf6}, {0xf7}, {0xe5}, {0x20}, {0xf9, 0x3c, 0x00}, {0x61, 0x31}, {0x41, 0x01}, {0xc2, 0x41, 0x05}}
+			if r.Intn(2) == 0 {
+				sp.kids[0] = &cnode{raw: odd[r.Intn(len(odd))]}
+			} else {
+				algNode = &cnode{raw: odd[r.Intn(len(odd))]}
+			}
+		}
+		top := &cnode{mt: 4, kids: []*cnode{algNode, pi(), pi(), sp}}
 		if r.Intn(2) == 0 {
 			top.kids = append(top.kids, &cnode{mt: 2, b: randBytes(r, r.Intn(5))})
 		}
@@ -288,6 +297,9 @@ func genClaimsOps(r *rand.Rand, n int) []string {
 				v = &cnode{mt: 3, b: textSamples[r.Intn(len(textSamples))]}
 			case 2, 3:
 				v = &cnode{mt: 0, n: genUint(r)}
+				if r.Intn(6) == 0 { // simple values / booleans / null where an integer is expected
+					v = &cnode{raw: [][]byte{{0xf0}, {0xf8, 0x80}, {0xf8, 0xff}, {0xf4}, {0xf5}, {0xf6}, {0xf7}, {0xe5}, {0x20}}[r.Intn(9)]}
+				}
 			case 4:
 				v = &cnode{mt: 2, b: randBytes(r, r.Intn(6))}
 			default:
